@@ -20,6 +20,9 @@
 (*   - every free is of a live allocation (no double free); only allocations of the image the     *)
 (*     call is applied to (a setter replacing a buffer) or of an image released in this call, or  *)
 (*     made in this call, are freed;                                                              *)
+(*   - the glyph cache owns private copies: insert takes or drops no reference on its argument,   *)
+(*     a failing insert leaves nothing behind, remove / thaw eviction / destroy release each copy  *)
+(*     completely (thaw may evict any subset: which one is C17's business), destroy releases all; *)
 (*   - an image released in this call has nothing live afterwards, a live image has something     *)
 (*     live (its structure), an allocation that outlives the call has an owner;                   *)
 (*   - at End nothing is live.                                                                    *)
@@ -58,22 +61,25 @@ RcAfter(sub, n, i, rc) ==
 SubjectOwner(c) ==      \* who owns what the call allocates and keeps
     CASE c.op \in {"create", "transform", "filter", "clip"} -> c.i
       [] c.op = "ginsert" -> GOwner(c.j)
+      [] c.op = "gcreate" -> COwner
       [] OTHER -> 0
 MayFreeOf(c, T) ==      \* whose allocations the call may release
     DiedSet(T) \cup (IF c.op \in {"transform", "filter", "clip"} THEN {c.i} ELSE {})
                \cup (IF c.op = "gremove" THEN {GOwner(c.j)} ELSE {})
+               \cup {GOwner(k) : k \in life.glyphs \ T.glyphs}        \* evicted by thaw / released by destroy
+               \cup (IF c.op = "gdestroy" THEN {COwner} ELSE {})
                \cup {Fresh}
 
 OwnersIn(L) == {x[2] : x \in L}
 
 Explains(T, ev, c, st, newlive) ==
     /\ T.err = ""
-    /\ IF c.op = "unref" THEN ev.ret = T.ret ELSE ev.ret
+    /\ CASE c.op \in {"unref", "glookup"} -> ev.ret = T.ret
+         [] c.op = "gbad" -> ~ev.ret                    \* the insert that cannot be done reports so
+         [] OTHER -> ev.ret
     \* (a new image starts with one reference, which no hook reports)
     /\ \A i \in Img : RcAfter(ev.sub, 1, i, IF c.op = "create" /\ i = c.i THEN 1 ELSE life.refs[i]) = T.refs[i]
-    \* glyph-cache copies are not pool images: one is released exactly when a present key is removed
-    /\ Cardinality({n \in DOMAIN ev.sub : ev.sub[n].k = "U" /\ ev.sub[n].a = 0 /\ ev.sub[n].c = 1})
-          = IF c.op = "gremove" /\ c.j \in life.glyphs THEN 1 ELSE 0
+    \* (images that are not in the pool -- glyph-cache copies, temporary masks -- are judged by their allocations only)
     /\ LET want == {<<T.died[n][1], T.died[n][2]>> : n \in {m \in DOMAIN T.died : T.died[m][2] # 0}} IN
           /\ {st.cbs[n] : n \in DOMAIN st.cbs} = want
           /\ Len(st.cbs) = Cardinality(want)
@@ -82,6 +88,7 @@ Explains(T, ev, c, st, newlive) ==
     /\ 0 \notin OwnersIn(newlive)
     /\ \A i \in Img : Alive(T, i) <=> i \in OwnersIn(newlive)
     /\ \A k \in GKeys : (k \in T.glyphs) <=> GOwner(k) \in OwnersIn(newlive)
+    /\ T.cache <=> COwner \in OwnersIn(newlive)
 
 TReset ==
     /\ l <= TraceLen /\ TraceLog[l].e = "Reset"
@@ -109,7 +116,7 @@ TEnd ==
     /\ TraceLog[l].pending = 0
     /\ live = {}                                         \* nothing pixman allocated is left
     /\ \A i \in Img : ~Alive(life, i)
-    /\ life.glyphs = {}
+    /\ life.glyphs = {} /\ ~life.cache
     /\ UNCHANGED <<life, live>>
     /\ l' = l + 1
 
